@@ -164,6 +164,10 @@ class QuicPacketBuilder:
         """
         Starts a new frame.
         """
+        # A packet whose payload is a single byte gets one byte of padding in
+        # _end_packet (header protection sample), reserve room for it.
+        if self.packet_is_empty:
+            capacity = max(capacity, PACKET_NUMBER_MAX_SIZE - PACKET_NUMBER_SEND_SIZE)
         if self.remaining_buffer_space < capacity or (
             frame_type not in NON_IN_FLIGHT_FRAME_TYPES
             and self.remaining_flight_space < capacity
